@@ -261,6 +261,17 @@ Theorem c15_error_classes : forall rk c check_more h e,
   e = EValue \/ (e = EJose UnsupportedAlgorithmError /\ exists d, rk = RJwe d).
 Proof. exact run_check_err. Qed.
 
+Example c15_ex_error_classes_hyp :
+  let c := {| c_extra := [hp "x-int" VInt true; hp "kid" VInt false]; c_strict := true;
+              c_allowed := Some ["A128KW"%string] |} in
+  reg_known (c_extra c) = true /\ ~ In alg_name (reg_names (c_extra c)) /\
+  run_check RJws c false [(asc "alg", PStr (asc "HS256"))] = Err EValue /\
+  run_check (RJwe false) c true [(asc "alg", PStr (asc "dir")); (asc "enc", PStr (asc "A128GCM"));
+                                 (asc "x-int", PInt 1)] = Err (EJose UnsupportedAlgorithmError) /\
+  run_check (RJwe false) c true [(asc "alg", PStr (asc "A128KW")); (asc "enc", PStr (asc "A128GCM"));
+                                 (asc "x-int", PInt 1); (asc "kid", PInt 7)] = Ok tt.
+Proof. exact ex_error_classes_hyp. Qed.
+
 (* exactly which inputs let another class escape (C16's business, only stated):
    a JWE registry whose caller re-registered alg as optional, on a header
    without alg -> KeyError from header["alg"] *)
